@@ -1,8 +1,438 @@
-//! C16 — generator and driver of the real API.
+//! C16 — partial-order alignment.
+//!
+//! `c16 <gap>:<xp>:<xs>:<yp>:<ys> <alphabet hex> <k*k score table, row = reference symbol> <reference hex> <step>/<step>/…`
+//! step = `<mode>:<query hex>:<bw>:<a|n>`; mode g = global (if bw > 0 a `global_banded(query, bw)` is run first
+//! on the same state and its score reported as `b:`), b = global_banded(bw), s = semiglobal, l = local,
+//! c = custom (clip penalties of the first token); `a` = `add_to_graph()` afterwards, `n` = align only.
+//!
+//! Observation: `g:<labels hex>:<edges> c:<consensus hex|PANIC>` for the initial graph, then per step
+//! ` | [b:<score>] s:<score> o:<ops> [g:… c:…]` (graph and consensus only after an addition).
+//! edges: `u.v.w,…` in petgraph edge-index order (`-` if none); ops: `M` `M<p>.<q>` `D` `D<p>.<q>` `I` `I<p>`
+//! `X<r>` `Y<a>.<b>`.  A panic inside one call is recorded in place (`s:PANIC`, `g:PANIC`, `c:PANIC`) and,
+//! except for the consensus, ends the history.
 use crate::util::*;
+use bio::alignment::pairwise::{MatchFunc, Scoring, MIN_SCORE};
+use bio::alignment::poa::{Aligner, AlignmentOperation, POAGraph};
+use std::panic::{catch_unwind, AssertUnwindSafe};
 
-pub fn gen(_tier: &str, _rng: &mut Rng, _out: &mut Vec<String>) {}
+fn ops_str(ops: &[AlignmentOperation]) -> String {
+    let v: Vec<String> = ops
+        .iter()
+        .map(|o| match o {
+            AlignmentOperation::Match(None) => "M".to_string(),
+            AlignmentOperation::Match(Some((p, q))) => format!("M{}.{}", p, q),
+            AlignmentOperation::Del(None) => "D".to_string(),
+            AlignmentOperation::Del(Some((p, q))) => format!("D{}.{}", p, q),
+            AlignmentOperation::Ins(None) => "I".to_string(),
+            AlignmentOperation::Ins(Some(p)) => format!("I{}", p),
+            AlignmentOperation::Xclip(r) => format!("X{}", r),
+            AlignmentOperation::Yclip(a, b) => format!("Y{}.{}", a, b),
+        })
+        .collect();
+    join(&v, ",")
+}
 
-pub fn exec(_toks: &[&str]) -> Result<String, String> {
-    Err("unimplemented".into())
+fn graph_str(g: &POAGraph) -> String {
+    let labels: Vec<u8> = g.raw_nodes().iter().map(|n| n.weight).collect();
+    let edges: Vec<String> = g
+        .raw_edges()
+        .iter()
+        .map(|e| format!("{}.{}.{}", e.source().index(), e.target().index(), e.weight))
+        .collect();
+    format!("g:{}:{}", hex(&labels), join(&edges, ","))
+}
+
+fn cons_str<F: MatchFunc>(al: &Aligner<F>) -> String {
+    match catch_unwind(AssertUnwindSafe(|| al.consensus())) {
+        Ok(c) => format!("c:{}", hex(&c)),
+        Err(_) => "c:PANIC".to_string(),
+    }
+}
+
+struct Step {
+    mode: char,
+    query: Vec<u8>,
+    bw: usize,
+    add: bool,
+}
+
+pub fn exec(toks: &[&str]) -> Result<String, String> {
+    if toks.len() != 5 {
+        return Err("arity".into());
+    }
+    let sc: Vec<i32> = parse_list(toks[0], ':')?;
+    if sc.len() != 5 || sc.iter().any(|&v| v > 0 || v < MIN_SCORE) {
+        return Err("scoring".into());
+    }
+    let alpha = unhex(toks[1])?;
+    let k = alpha.len();
+    if k == 0 || k > 8 {
+        return Err("alphabet".into());
+    }
+    for i in 0..k {
+        for j in 0..i {
+            if alpha[i] == alpha[j] {
+                return Err("alphabet repeats".into());
+            }
+        }
+    }
+    let table: Vec<i32> = parse_list(toks[2], ',')?;
+    if table.len() != k * k || table.iter().any(|v| v.abs() > 1000) {
+        return Err("table".into());
+    }
+    let reference = unhex(toks[3])?;
+    if reference.is_empty() || reference.len() > 400 || reference.iter().any(|c| !alpha.contains(c)) {
+        return Err("reference".into());
+    }
+    let mut steps: Vec<Step> = vec![];
+    for s in split_list(toks[4], '/') {
+        let f: Vec<&str> = s.split(':').collect();
+        if f.len() != 4 || f[0].len() != 1 {
+            return Err("step".into());
+        }
+        let mode = f[0].chars().next().unwrap();
+        if !"gbslc".contains(mode) {
+            return Err("mode".into());
+        }
+        let query = unhex(f[1])?;
+        if query.is_empty() || query.len() > 400 || query.iter().any(|c| !alpha.contains(c)) {
+            return Err("query".into());
+        }
+        let bw: usize = parse(f[2])?;
+        if bw > 10_000 || (mode == 'b' && bw == 0) {
+            return Err("bandwidth".into());
+        }
+        let add = match f[3] {
+            "a" => true,
+            "n" => false,
+            _ => return Err("add flag".into()),
+        };
+        steps.push(Step { mode, query, bw, add });
+    }
+    if steps.is_empty() || steps.len() > 16 {
+        return Err("steps".into());
+    }
+
+    let mut idx = [usize::MAX; 256];
+    for (i, &c) in alpha.iter().enumerate() {
+        idx[c as usize] = i;
+    }
+    let tab = table.clone();
+    let f = move |a: u8, b: u8| -> i32 { tab[idx[a as usize] * k + idx[b as usize]] };
+    let mut scoring = Scoring::new(sc[0], 0, f);
+    scoring.xclip_prefix = sc[1];
+    scoring.xclip_suffix = sc[2];
+    scoring.yclip_prefix = sc[3];
+    scoring.yclip_suffix = sc[4];
+
+    let mut al = Aligner::new(scoring, &reference);
+    let mut out = format!("{} {}", graph_str(al.graph()), cons_str(&al));
+    for st in &steps {
+        out.push_str(" |");
+        if st.mode == 'g' && st.bw > 0 {
+            match catch_unwind(AssertUnwindSafe(|| al.global_banded(&st.query, st.bw).alignment().score)) {
+                Ok(s) => out.push_str(&format!(" b:{}", s)),
+                Err(_) => out.push_str(" b:PANIC"),
+            }
+        }
+        let r = catch_unwind(AssertUnwindSafe(|| {
+            match st.mode {
+                'g' => al.global(&st.query),
+                'b' => al.global_banded(&st.query, st.bw),
+                's' => al.semiglobal(&st.query),
+                'l' => al.local(&st.query),
+                _ => al.custom(&st.query),
+            };
+            al.alignment()
+        }));
+        let aln = match r {
+            Ok(a) => a,
+            Err(_) => {
+                out.push_str(" s:PANIC");
+                break;
+            }
+        };
+        out.push_str(&format!(" s:{} o:{}", aln.score, ops_str(aln.verif_operations())));
+        if st.add {
+            if catch_unwind(AssertUnwindSafe(|| {
+                al.add_to_graph();
+            }))
+            .is_err()
+            {
+                out.push_str(" g:PANIC");
+                break;
+            }
+            out.push_str(&format!(" {} {}", graph_str(al.graph()), cons_str(&al)));
+        }
+    }
+    Ok(out)
+}
+
+// ---------------------------------------------------------------------------------------------- generation
+
+struct Scheme {
+    gap: i32,
+    clips: [i32; 4],
+    alpha: Vec<u8>,
+    table: Vec<i32>,
+}
+
+impl Scheme {
+    fn head(&self) -> String {
+        format!(
+            "{}:{}:{}:{}:{} {} {}",
+            self.gap,
+            self.clips[0],
+            self.clips[1],
+            self.clips[2],
+            self.clips[3],
+            hex(&self.alpha),
+            join(&self.table, ",")
+        )
+    }
+}
+
+fn alphabet(rng: &mut Rng) -> Vec<u8> {
+    let k = 2 + rng.below(3);
+    let mut a: Vec<u8> = b"ACGT"[..k].to_vec();
+    if rng.chance(1, 16) {
+        a[k - 1] = b'X'; // the symbol `add_alignment` treats as a wildcard
+    }
+    a
+}
+
+/// match/mismatch scheme under which the identity alignment of a sequence with itself is the unique optimum:
+/// one match score M > 0 for all equal pairs, every other pair < M, gap < 0
+fn scheme_unique(rng: &mut Rng) -> Scheme {
+    let alpha = alphabet(rng);
+    let k = alpha.len();
+    let m = 1 + rng.below(3) as i32;
+    let varied = rng.chance(1, 3);
+    let mm = rng.range(-3, (m - 1) as i64) as i32;
+    let mut table = vec![0; k * k];
+    for i in 0..k {
+        for j in 0..k {
+            table[i * k + j] = if i == j {
+                m
+            } else if varied {
+                rng.range(-3, (m - 1) as i64) as i32
+            } else {
+                mm
+            };
+        }
+    }
+    Scheme { gap: -(1 + rng.below(4) as i32), clips: [MIN_SCORE; 4], alpha, table }
+}
+
+/// arbitrary substitution table (equal symbols need not score best), gap 0..-4
+fn scheme_any(rng: &mut Rng) -> Scheme {
+    let alpha = alphabet(rng);
+    let k = alpha.len();
+    let table: Vec<i32> = match rng.below(4) {
+        0 => (0..k * k).map(|_| rng.range(-4, 4) as i32).collect(),
+        1 => (0..k * k).map(|i| if i / k == i % k { 0 } else { rng.range(-2, 0) as i32 }).collect(), // match score 0
+        2 => (0..k * k).map(|i| if i / k == i % k { rng.range(0, 5) as i32 } else { rng.range(-5, 1) as i32 }).collect(),
+        _ => {
+            let m = rng.range(1, 4) as i32;
+            let x = rng.range(-4, 0) as i32;
+            (0..k * k).map(|i| if i / k == i % k { m } else { x }).collect()
+        }
+    };
+    let gap = if rng.chance(1, 8) { 0 } else { -(1 + rng.below(4) as i32) };
+    Scheme { gap, clips: [MIN_SCORE; 4], alpha, table }
+}
+
+fn clip(rng: &mut Rng) -> i32 {
+    *rng.pick(&[MIN_SCORE, MIN_SCORE, 0, 0, -1, -3, -6])
+}
+
+fn reference(rng: &mut Rng, alpha: &[u8]) -> Vec<u8> {
+    let len = match rng.below(12) {
+        0 => 1,
+        1 => 2,
+        2..=7 => 3 + rng.below(10),
+        _ => 10 + rng.below(16),
+    };
+    if rng.chance(1, 6) {
+        // low complexity: repeats make ties and alternative optimal paths frequent
+        let per = 1 + rng.below(2);
+        let w = rng.seq(alpha, per);
+        (0..len).map(|i| w[i % per]).collect()
+    } else {
+        rng.seq(alpha, len)
+    }
+}
+
+fn query(rng: &mut Rng, alpha: &[u8], reference: &[u8], earlier: &[Vec<u8>]) -> Vec<u8> {
+    let mut q = match rng.below(12) {
+        0 => reference.to_vec(),
+        1..=4 => {
+            let rate = 10 + rng.below(30);
+            rng.mutate(reference, alpha, rate)
+        }
+        5 => {
+            let n = 1 + rng.below(25);
+            rng.seq(alpha, n)
+        }
+        6 => {
+            // a piece of the reference
+            let a = rng.below(reference.len());
+            let b = a + 1 + rng.below(reference.len() - a);
+            reference[a..b].to_vec()
+        }
+        7 => {
+            // reference with an inserted block / extended ends
+            let mut q = reference.to_vec();
+            let at = rng.below(q.len() + 1);
+            let n = 1 + rng.below(5);
+            let ins = rng.seq(alpha, n);
+            q.splice(at..at, ins);
+            q
+        }
+        8 => vec![*rng.pick(alpha)],
+        9 | 10 if !earlier.is_empty() => {
+            let e = rng.pick(earlier).clone();
+            if rng.chance(1, 2) {
+                e
+            } else {
+                rng.mutate(&e, alpha, 15)
+            }
+        }
+        _ => rng.mutate(reference, alpha, 50),
+    };
+    if q.is_empty() {
+        q.push(*rng.pick(alpha));
+    }
+    q.truncate(25);
+    q
+}
+
+fn step(mode: char, q: &[u8], bw: usize, add: bool) -> String {
+    format!("{}:{}:{}:{}", mode, hex(q), bw, if add { "a" } else { "n" })
+}
+
+fn full_band(rng: &mut Rng, m: usize, n: usize) -> usize {
+    m.max(n) + *rng.pick(&[0usize, 0, 1, 5])
+}
+
+/// mixed history on one aligner
+fn history(rng: &mut Rng, out: &mut Vec<String>) {
+    let mut sch = if rng.chance(1, 2) { scheme_unique(rng) } else { scheme_any(rng) };
+    if rng.chance(1, 3) {
+        sch.clips = [clip(rng), clip(rng), clip(rng), clip(rng)];
+    }
+    let r = reference(rng, &sch.alpha);
+    let nsteps = 1 + rng.below(8);
+    let mut steps = vec![];
+    let mut earlier: Vec<Vec<u8>> = vec![];
+    let mut nodes = r.len();
+    for _ in 0..nsteps {
+        let q = query(rng, &sch.alpha, &r, &earlier);
+        let add = rng.chance(4, 5);
+        let s = match rng.below(20) {
+            0..=8 => {
+                let bw = if rng.chance(1, 2) { full_band(rng, nodes, q.len()) } else { 0 };
+                step('g', &q, bw, add)
+            }
+            9..=12 => {
+                let bw = if rng.chance(3, 5) { full_band(rng, nodes, q.len()) } else { 1 + rng.below(6) };
+                step('b', &q, bw, add)
+            }
+            13 | 14 => step('s', &q, 0, add),
+            15 | 16 => step('l', &q, 0, add),
+            _ => step('c', &q, 0, add),
+        };
+        steps.push(s);
+        if add {
+            nodes += q.len(); // upper bound, keeps later "full" bands full
+            earlier.push(q);
+        }
+    }
+    out.push(format!("{} {} {}", sch.head(), hex(&r), steps.join("/")));
+}
+
+/// the score clause in volume: several queries against the fresh linear graph, nothing added
+fn linear_case(rng: &mut Rng, out: &mut Vec<String>) {
+    let sch = if rng.chance(1, 3) { scheme_unique(rng) } else { scheme_any(rng) };
+    let r = reference(rng, &sch.alpha);
+    let n = 2 + rng.below(5);
+    let mut steps = vec![];
+    for _ in 0..n {
+        let q = query(rng, &sch.alpha, &r, &[]);
+        let bw = full_band(rng, r.len(), q.len());
+        steps.push(if rng.chance(1, 4) { step('b', &q, bw, false) } else { step('g', &q, bw, false) });
+    }
+    // possibly finish with one addition so that the graph clauses see the alignment just checked
+    if rng.chance(1, 2) {
+        let q = query(rng, &sch.alpha, &r, &[]);
+        steps.push(step('g', &q, full_band(rng, r.len(), q.len()), true));
+    }
+    out.push(format!("{} {} {}", sch.head(), hex(&r), steps.join("/")));
+}
+
+/// the reference re-added 1–8 times under a scheme whose unique optimum is the identity alignment
+fn identity_case(rng: &mut Rng, out: &mut Vec<String>) {
+    let sch = scheme_unique(rng);
+    let r = reference(rng, &sch.alpha);
+    let n = 1 + rng.below(8);
+    let steps: Vec<String> = (0..n)
+        .map(|_| {
+            let bw = if rng.chance(1, 2) { full_band(rng, r.len(), r.len()) } else { 0 };
+            step('g', &r, bw, true)
+        })
+        .collect();
+    out.push(format!("{} {} {}", sch.head(), hex(&r), steps.join("/")));
+}
+
+fn enum_seqs(alpha: &[u8], minlen: usize, maxlen: usize) -> Vec<Vec<u8>> {
+    let mut out = vec![];
+    let mut cur: Vec<Vec<u8>> = vec![vec![]];
+    for l in 0..=maxlen {
+        if l >= minlen {
+            out.extend(cur.iter().cloned());
+        }
+        let mut nxt = vec![];
+        for s in &cur {
+            for &a in alpha {
+                let mut t = s.clone();
+                t.push(a);
+                nxt.push(t);
+            }
+        }
+        cur = nxt;
+    }
+    out
+}
+
+pub fn gen(tier: &str, rng: &mut Rng, out: &mut Vec<String>) {
+    let n = if tier == "thorough" { 150_000 } else { 5_000 };
+    for i in 0..n {
+        match i % 10 {
+            0 | 1 => linear_case(rng, out),
+            2 => identity_case(rng, out),
+            _ => history(rng, out),
+        }
+    }
+    if tier == "thorough" {
+        // exhaustive small scope: every reference and query over {A,C} of length 1..4 (30 x 30), three schemes,
+        // global + full band on the fresh graph, then the query added and the reference re-aligned
+        let seqs = enum_seqs(b"AC", 1, 4);
+        let schemes = ["-1:-858993459:-858993459:-858993459:-858993459 4143 1,-1,-1,1",
+            "-2:-858993459:-858993459:-858993459:-858993459 4143 2,0,-3,1",
+            "0:-858993459:-858993459:-858993459:-858993459 4143 1,-1,-2,0"];
+        for sch in schemes {
+            for r in &seqs {
+                for q in &seqs {
+                    let bw = r.len().max(q.len());
+                    out.push(format!(
+                        "{} {} {}/{}",
+                        sch,
+                        hex(r),
+                        step('g', q, bw, true),
+                        step('g', r, bw + q.len(), true)
+                    ));
+                }
+            }
+        }
+    }
 }
